@@ -10,6 +10,8 @@ import XmppModel.Model.IbbBody
 import XmppModel.Model.IbbTable
 import XmppModel.Model.IbbCarrier
 import XmppModel.Lemmas.IbbCarrier
+import XmppModel.Model.IbbWriteSide
+import XmppModel.Lemmas.IbbWriteSide
 import XmppModel.Generated.C15
 /-!
 # C15 — an in-band bytestream is a reliable ordered byte pipe
@@ -988,6 +990,63 @@ theorem C15_carrier_probe :
   decide
 
 end Carrier
+
+/-! ### the write side under concurrent use: the peer's close while the application writes (round E) -/
+section WriteSide
+open XmppModel.IbbWriteSide
+
+/-- the invariant is inductive: initially, and across every enabled step of either thread -/
+theorem C15_write_side_inv_step (s s' : St) (a : Act) (h : Inv s) (hs : step true s a = some s') : Inv s' :=
+  inv_step h hs
+
+/-- with every use of the write side under the write lock: for EVERY interleaving of Write / Flush
+of the application with the flush of a peer-initiated close on the serving goroutine (which
+leaves the write side alone when the lock is taken), what has gone out in data stanzas followed by
+what is still buffered is exactly what Write accepted — each byte at most once, in order, nothing
+lost -/
+theorem C15_write_side_exactly_once (acts : List Act) (s : St) (h : run true {} acts = some s) :
+    s.wire ++ s.buf = s.written :=
+  (inv_run inv_init h).1
+
+/-- in particular the bytes on the wire are a prefix of the bytes written -/
+theorem C15_write_side_wire_is_prefix (acts : List Act) (s : St) (h : run true {} acts = some s) :
+    s.wire <+: s.written :=
+  ⟨s.buf, C15_write_side_exactly_once acts s h⟩
+
+/-- and a flush that completes leaves nothing behind: everything accepted so far is on the wire -/
+theorem C15_write_side_flush_drains (acts : List Act) (s s' : St) (t : Tid) (h : run true {} acts = some s)
+    (hs : step true s (.flushEnd t) = some s') : s'.wire = s'.written := by
+  have hi := inv_run inv_init h
+  have hi' := inv_step hi hs
+  simp only [step] at hs
+  cases hsn : s.snap t with
+  | none => simp [hsn] at hs
+  | some l =>
+    obtain ⟨hlock, hl⟩ := hi.2 t l hsn
+    simp [hsn, hlock] at hs; subst hs; subst hl
+    have := hi'.1
+    cases t <;> simp_all [St.setSnap]
+
+/-- non-vacuity: the application writes and flushes, the peer's close finds the lock taken and
+stays away, the application writes again, a later close flushes the rest -/
+example : (run true {} [.write [65, 66], .flushBegin false, .trySkip, .flushEnd false, .write [67],
+    .flushBegin true, .flushEnd true]).map (fun s => (s.wire, s.buf)) = some ([65, 66, 67], []) := by decide
+
+/-- negation witness (the pinned snapshot: the serving goroutine flushes without the lock): both
+threads are inside Flush with the same buffer contents, the byte goes out twice -/
+theorem C15_write_side_unlocked_duplicates :
+    ∃ acts s, run false {} acts = some s ∧ s.written = [65] ∧ s.wire = [65, 65] :=
+  ⟨[.write [65], .flushBegin false, .flushBegin true, .flushEnd false, .flushEnd true], _, rfl, by decide, by decide⟩
+
+/-- REGENERATED FACT (lock discipline, not probeable): in package ibb every use of the write side of
+`Conn` — the field of type `*bufio.Writer` and the encoder's closer of type `func() error`, whatever
+they are called; the read-only `Size` / `Available` / `Buffered` excepted — is made while one and the
+same mutex of `Conn` is held (Lock, or a TryLock on the path that continues), in the function itself
+or at every call site of a helper.  This is what makes `step true` the adequate model.  (Before the
+round-E fix: `some false`, unguarded use in Close, closeNoNotify, flush.) -/
+theorem C15_write_side_locked : Generated.C15.writeSideLocked = some true := by decide
+
+end WriteSide
 
 /-! ### the executable codec instance: spot checks -/
 example : std.dec (std.enc [1, 2, 3, 4, 5]) = some [1, 2, 3, 4, 5] := by decide
